@@ -110,7 +110,7 @@ func c02Prefix(w *World, r *Report) {
 		if !isSel || se.Sel.Name != "Local" {
 			return true
 		}
-		switch c.Name() {
+		switch nm(c) {
 		case "NewLiteralDatum":
 			nLit++
 		case "NewPathElem":
@@ -181,7 +181,7 @@ func c02Root(w *World, r *Report) {
 	push := w.Method("xpath", "PathStack", "PushPath")
 	for _, ce := range allCallsTo(ap, afd.Body, push) {
 		if inner, ok := ast.Unparen(ce.Args[0]).(*ast.CallExpr); ok {
-			if c := calleeOf(ap, inner); c != nil && c.Name() == "DeepCopy" {
+			if c := calleeOf(ap, inner); c != nil && nm(c) == "DeepCopy" {
 				deep = true
 			}
 		}
@@ -262,7 +262,7 @@ func c02Steps(w *World, r *Report) {
 					n := 0
 					ast.Inspect(a.Clause, func(x ast.Node) bool {
 						if ce, ok := x.(*ast.CallExpr); ok {
-							if f := calleeOf(p, ce); f != nil && f.Name() == "NewPathElem" {
+							if f := calleeOf(p, ce); f != nil && nm(f) == "NewPathElem" {
 								if s, ok := ConstStr(p, ce.Args[0]); ok && s == ".." {
 									n++
 								}
@@ -314,7 +314,7 @@ func c02Keys(w *World, r *Report) {
 					// attaches
 					ast.Inspect(x.Body, func(n ast.Node) bool {
 						if ce, ok := n.(*ast.CallExpr); ok {
-							if c := calleeOf(p, ce); c != nil && c.Name() == "AddKey" && len(ce.Args) == 2 {
+							if c := calleeOf(p, ce); c != nil && nm(c) == "AddKey" && len(ce.Args) == 2 {
 								// receiver chain: PeakPath().LastPathElem()
 								recv := types.ExprString(ce.Fun)
 								if strings.Contains(recv, "PeakPath().LastPathElem()") && objOfIdent(p, ce.Args[0]) == objOfIdent(p, x.Value) {
@@ -409,7 +409,7 @@ func c02Value(w *World, r *Report) {
 			if c == nil {
 				continue
 			}
-			switch c.Name() {
+			switch nm(c) {
 			case "PopPath":
 				pathObj = objOfIdent(p, x.Lhs[0])
 			case "Navigate":
@@ -425,7 +425,7 @@ func c02Value(w *World, r *Report) {
 			}
 		case *ast.ExprStmt:
 			if ce, ok := x.X.(*ast.CallExpr); ok {
-				if c := calleeOf(p, ce); c != nil && c.Name() == "pushDatum" && valObj != nil && objOfIdent(p, ce.Args[0]) == valObj {
+				if c := calleeOf(p, ce); c != nil && nm(c) == "pushDatum" && valObj != nil && objOfIdent(p, ce.Args[0]) == valObj {
 					okPush = true
 				}
 			}
@@ -444,13 +444,13 @@ func c02Value(w *World, r *Report) {
 		case *ast.AssignStmt:
 			if len(x.Rhs) == 1 {
 				if ce, ok := x.Rhs[0].(*ast.CallExpr); ok {
-					if c := calleeOf(dp, ce); c != nil && c.Name() == "FollowLeafRef" {
+					if c := calleeOf(dp, ce); c != nil && nm(c) == "FollowLeafRef" {
 						lref = objOfIdent(dp, x.Lhs[0])
 					}
 				}
 			}
 		case *ast.CallExpr:
-			if c := calleeOf(dp, x); c != nil && c.Name() == "PushPath" && len(x.Args) == 1 {
+			if c := calleeOf(dp, x); c != nil && nm(c) == "PushPath" && len(x.Args) == 1 {
 				arg := x.Args[0]
 				// a copy of the path is the same path for this rule (R06.8 asks for the copy)
 				if cp, ok := arg.(*ast.CallExpr); ok && len(cp.Args) == 0 {
@@ -586,7 +586,7 @@ func c02PathWriters(w *World, r *Report) {
 		if !ok || n.Obj().Pkg() == nil || !strings.HasSuffix(n.Obj().Pkg().Path(), "/schema-server") && !strings.Contains(n.Obj().Pkg().Path(), "sdcpb") {
 			return ""
 		}
-		if n.Obj().Name() == "Path" || n.Obj().Name() == "PathElem" {
+		if nm(n.Obj()) == "Path" || nm(n.Obj()) == "PathElem" {
 			return n.Obj().Name()
 		}
 		return ""
@@ -711,7 +711,7 @@ func recvWritesD(e *Effects, f *ssa.Function, idx int, depth int, busy map[*ssa.
 			case ssa.CallInstruction:
 				cc := x.Common()
 				if b, ok := cc.Value.(*ssa.Builtin); ok {
-					if (b.Name() == "delete" || b.Name() == "copy" || b.Name() == "clear") && len(cc.Args) > 0 && e.rootsOf(cc.Args[0]).has(s) {
+					if (nm(b) == "delete" || nm(b) == "copy" || nm(b) == "clear") && len(cc.Args) > 0 && e.rootsOf(cc.Args[0]).has(s) {
 						return true
 					}
 					continue
@@ -762,7 +762,7 @@ func c02FreshKeyMap(w *World, r *Report) {
 			n++
 			fresh := false
 			if c, ok := st.Val.(*ssa.Call); ok {
-				if bi, ok := c.Call.Value.(*ssa.Builtin); ok && bi.Name() == "append" && len(c.Call.Args) == 2 {
+				if bi, ok := c.Call.Value.(*ssa.Builtin); ok && nm(bi) == "append" && len(c.Call.Args) == 2 {
 					// the variadic slice holds one element: a MakeMap
 					if sl, ok := c.Call.Args[1].(*ssa.Slice); ok {
 						if al, ok := sl.X.(*ssa.Alloc); ok {
@@ -902,7 +902,7 @@ func c02RootInstruction(w *World, r *Report, cpo *types.Func) {
 				if !ok || c.Call.StaticCallee() == nil {
 					continue
 				}
-				switch c.Call.StaticCallee().Name() {
+				switch nm(c.Call.StaticCallee()) {
 				case "SetIsRootBased":
 					recv = c.Call.Args[0]
 					setPos = c.Pos()
@@ -980,7 +980,7 @@ func c02RootInstruction(w *World, r *Report, cpo *types.Func) {
 		if okFresh && pops == 1 && pushes == 1 && pushed != nil {
 			if pushed == recv {
 				okSwap = true
-			} else if pc, ok := pushed.(*ssa.Call); ok && pc.Call.StaticCallee() != nil && pc.Call.StaticCallee().Name() == "SetIsRootBased" && pc.Call.Args[0] == recv {
+			} else if pc, ok := pushed.(*ssa.Call); ok && pc.Call.StaticCallee() != nil && nm(pc.Call.StaticCallee()) == "SetIsRootBased" && pc.Call.Args[0] == recv {
 				okSwap = true
 			}
 		}
